@@ -149,6 +149,13 @@ inductive VRes where
   | panic (k : String)
   | bad
 
+def staticVal : Nat → Option Int
+  | 0 => some 7
+  | 1 => some (5 + 9 * 2 ^ 64)
+  | 2 => some (1 + 2 * 2 ^ 64 + 3 * 2 ^ 128)
+  | 3 => some ((2 ^ 64 - 1) + 2 ^ 256)
+  | _ => none
+
 def vstep (P : VPool) (tok : String) : VRes :=
   let parts := tok.splitOn ":"
   let reg (s : String) : Option Nat := match s.toNat? with | some k => if k < R then some k else none | none => none
@@ -216,6 +223,10 @@ def vstep (P : VPool) (tok : String) : VRes :=
          | _, _ => .bad)
      | _, _ => .bad)
   | ["drop", k] => (match reg k with | some k => .okEmpty (vset P k none) | none => .bad)
+  -- values backed by `static` word arrays (from_static_words): [7], [5,9], [1,2,3], [MAX,0,0,0,1]
+  | ["sclone", k, i] => (match reg k, i.toNat? >>= staticVal with | some k, some s => put k s | _, _ => .bad)
+  | ["sadd", k, i] => (match reg k, val k, i.toNat? >>= staticVal with | some k, some x, some s => put k (x + s) | _, _, _ => .bad)
+  | ["smul", k, i] => (match reg k, val k, i.toNat? >>= staticVal with | some k, some x, some s => put k (x * s) | _, _, _ => .bad)
   | _ => .bad
 
 partial def valLoop (P : VPool) (out : Array String) : List String → Option (VPool × Array String)
